@@ -88,6 +88,9 @@ type c10History struct {
 	// NoWriteTimeout configures hsms.WithWriteTimeout(0) ("no write deadline", a documented setting): whatever the
 	// library writes on its own behalf during a teardown (the farewell Separate) must still be bounded.
 	NoWriteTimeout bool `json:"no_write_timeout,omitempty"`
+	// LongWriteTimeout configures a write timeout (5 s) far above the close timeout: the farewell Separate has its own
+	// short bound and must not inherit the data path's (after seeded change C09f-2).
+	LongWriteTimeout bool `json:"long_write_timeout,omitempty"`
 }
 
 func (h c10History) closeTimeout() time.Duration {
@@ -295,6 +298,8 @@ func c10WedgedPeerDirected() []c10History {
 	op := func(k string, a int) c10Op { return c10Op{Kind: k, Arg: a} }
 	var out []c10History
 	for _, role := range []string{"active", "passive"} {
+		out = append(out, c10History{Role: role, Tag: "wedged-peer-close-long-write-timeout", Behs: []string{"stallRead", "stallRead"}, LongWriteTimeout: true,
+			Progs: [][]c10Op{{op("openWait", 600), op("sleep", 60), op("close", 0)}, {op("sleep", 900), op("state", 0)}}})
 		for _, nowt := range []bool{false, true} {
 			behs := []string{"stallRead", "stallRead", "stallRead", "stallRead"}
 			out = append(out,
@@ -484,6 +489,9 @@ func c10RunHistory(h c10History) (res c10Result) {
 	}
 	if h.NoWriteTimeout {
 		co = append(co, hsms.WithWriteTimeout(0))
+	}
+	if h.LongWriteTimeout {
+		co = append(co, hsms.WithWriteTimeout(5*time.Second))
 	}
 	if h.LongBackoff {
 		co = append(co, hsms.WithT5(10*time.Second), hsms.WithReconnectBackoff(5*time.Second, 2))
